@@ -97,6 +97,7 @@ def props_program(draw):
             steps.append({"op": "PROPFIND", "fe": fe, "afe": afe, "coll": coll, "depth": draw(st.sampled_from([0, 1])), "allprop": draw(st.booleans())})
         else:
             steps.append({"op": "RESTART"})
+        gen_prog.wrap_locked(draw, steps, 9)  # a PROPPATCH refused as locked changes nothing
         if sparse and draw(st.integers(0, 5)) == 0:
             steps.append({"op": "AUDIT"})
     return {"config": cfg, "steps": steps}
